@@ -98,6 +98,13 @@ return caught, s1, ok2, type(m2), coroutine.status(co)`, "registry overflow|dead
 	{"C14", "set-with-escaped-punctuation-before-a-dash", `local function m(s, p) return (s:find(p)) ~= nil end return m("-", "[%.-_]"), m(".", "[%.-_]"), m("_", "[%.-_]"), m("A", "[%.-_]"), m("0", "[%.-_]"), m("-", "[%--x]"), m("a", "[%--x]"), m("b", "[%a-z]") , m("-", "[%a-]"), m("+", "[%+-%.]")`, "true|true|true|false|false|true|false|true|true|true", nil},
 	{"C18", "maxn-ignores-cleared-keys", `local t = {1, 2, 3} t[7.5] = "x" t[7.5] = nil t[2^27] = "y" t[2^27] = nil t[-3] = "z" local u = {} u[7.5] = 1 local w = {} w[2^27] = 1 w[2^27] = nil w[9.25] = 2 return table.maxn(t), table.maxn({}), table.maxn(u), table.maxn(w)`, "3|0|7.5|9.25", nil},
 	{"C18", "remove-from-a-list-emptied-by-assignment", `local t = {1, 2, 3} t[3] = nil t[2] = nil t[1] = nil local u = {1, 2} u[2] = nil return select("#", table.remove(t)), select("#", table.remove(t, nil)), #t, table.remove(u), select("#", table.remove(u)), #u`, "0|0|0|1|0|0", nil},
+	// eighth batch
+	{"C19", "read-format-must-be-a-number-or-a-string", `local f = io.open("$F") local a, b, c = pcall(f.read, f, true), pcall(f.read, f, nil), pcall(f.read, f, {}) local d = f:read(2, "*l") f:close() return a, b, c, d`, "false|false|false|01", nil},
+	{"C19", "io.lines-on-a-closed-default-input-raises-at-once", `io.input("$F") io.close(io.input()) local closed = pcall(io.lines) io.input("$F") local open = pcall(io.lines) return closed, open`, "false|true", nil},
+	{"C20", "empty-path-templates-are-skipped", `package.path = "./?.lua;;;./x/?.lua;" local ok, msg = pcall(require, "nosuchmod") package.path = "" local ok2, msg2 = pcall(require, "nosuchmod2") return ok, msg:find("no file ''", 1, true) == nil, select(2, msg:gsub("no file", "")), ok2, msg2:find("no file", 1, true) == nil`, "false|true|2|false|true", nil},
+	{"C17", "getinfo-of-a-level-lost-to-a-tail-call", `local function g() local i = debug.getinfo(2, "Sl") local j = debug.getinfo(3, "S") return i.currentline, i.what, i.source, j.what end local function f() return g() end local a, b, c, d = f() return a, b, c, d`, "-1|tail|=(tail call)|main", nil},
+	{"C15", "ldexp-with-an-exponent-beyond-int", `return math.ldexp(1, 2^63) == math.huge, math.ldexp(1, -2^63), math.ldexp(0, 2^63), math.ldexp(2^-1074, 1074), math.ldexp(2^1023, -2000) == 2^-977, math.ldexp(2^-1074, 2097) == 2^1023, math.ldexp(-1, 2^40) == -math.huge, math.ldexp(1, 1024) == math.huge, math.ldexp(1, 1023) == 2^1023`, "true|0|0|1|true|true|true|true|true", nil},
+	{"C14", "gsub-returns-a-string-also-without-a-match", `return type((string.gsub(123, "x", "y"))), (string.gsub(123, "x", "y")), select(2, string.gsub(123, "x", "y")), type((string.gsub(123, "2", "y"))), (string.gsub(12.5, "%.", ","))`, "string|123|0|string|12,5", nil},
 	// seventh batch
 	{"C15", "string-position-minus-2^63", `return ("abc"):sub(-2^63), ("abc"):sub(-math.huge), (("abc"):find("b", -2^63)), (("abc"):byte(-2^63)), ("abc"):sub(-2^63, -2^63), ("abc"):byte(-2^63, -1)`, "abc|abc|2|nil||97|98|99", nil},
 	{"C15", "random-argument-count", `math.randomseed(1) local a = math.random(1, 2) return pcall(math.random, 1, 2, 3), a >= 1 and a <= 2, pcall(math.random, 2, 1)`, "false|true|false", nil},
@@ -380,6 +387,26 @@ func pinnedGoAPI5(r *harness.Run, prop string) {
 			}
 			if s := L.Concat(lua.LString("x")); s != "x" {
 				return fmt.Sprintf("Concat(x) gives %q", s)
+			}
+			return ""
+		})
+		check("goapi/replace-globals-index", func(L *lua.LState) string {
+			nt := L.NewTable()
+			nt.RawSetString("print", L.GetGlobal("print"))
+			L.Replace(lua.GlobalsIndex, nt)
+			L.SetGlobal("y", lua.LString("v"))
+			if L.Get(lua.GlobalsIndex) != nt || L.GetGlobal("y") != lua.LString("v") {
+				return "Get(GlobalsIndex)/GetGlobal do not see the new table"
+			}
+			if err := L.DoString(`seen = y  z = "from-lua"`); err != nil {
+				return err.Error()
+			}
+			if nt.RawGetString("seen") != lua.LString("v") || L.GetGlobal("z") != lua.LString("from-lua") {
+				return fmt.Sprintf("a chunk loaded after Replace(GlobalsIndex) does not use the new table: seen=%v z=%v", nt.RawGetString("seen"), L.GetGlobal("z"))
+			}
+			th, _ := L.NewThread()
+			if th.GetGlobal("y") != lua.LString("v") {
+				return "a thread created afterwards does not see the new globals"
 			}
 			return ""
 		})
